@@ -352,7 +352,7 @@ OBJK = ['at_tf', 'at_t0', 'integral', 'sum', 'sum_plus', 'int_control']
 class C05(NlpCheck):
     pid = "C05"
     uses_generated = True
-    slices = ["objective-all-methods", "colloc-integrates-constants", "sol.value(objective)-vs-solver", "terms-added-after-transcription"]
+    slices = ["objective-all-methods", "colloc-integrates-constants", "sol.value(objective)-vs-solver", "terms-added-after-transcription", "terms-of-all-stages"]
     tags = ()
     want_f = True
     profiles = [
@@ -384,6 +384,81 @@ class C05(NlpCheck):
         self.constants_slice()
         self.solver_slice()
         self.late_terms_slice()
+        self.stages_slice()
+
+    def stages_slice(self):
+        """the NLP objective of a multi-stage problem is the sum of the terms of the OCP itself and of EVERY stage: at the starting point
+        (non-trivial, time-dependent guesses) it equals the parent's own term plus the objective of each stage transcribed alone (single
+        stages are what the main correspondence ties to the model); stage order, methods and where the terms sit vary"""
+        import casadi as ca
+        import numpy as np
+        rockit = B.import_rockit()
+        name = "terms-of-all-stages"
+        n = 6 if self.tier == 'quick' else 60
+        rng = self.rng
+        for it in range(n):
+            nst = 2 + (it % 2)
+            parent_term = it % 3 != 2
+            cfg = []
+            for i in range(nst):
+                cfg.append({"method": rng.choice(['ms', 'ss', 'dc']), "N": rng.randint(2, 3), "M": rng.randint(1, 2), "t0": 0.5 * i, "T": rng.choice([1.0, 1.5, 2.0]),
+                            "c": [rng.randint(1, 8) / 4.0 for _ in range(4)], "kinds": rng.sample(['mayer', 'integral', 'sum', 'integral_control'], rng.randint(1, 3)),
+                            "guess": [rng.randint(1, 6) / 4.0, rng.randint(-4, 4) / 4.0 or 0.5, rng.randint(1, 4) / 2.0]})
+            if it % 3 == 1:
+                cfg[-1]["kinds"] = []          # the LAST stage without any term
+            vg, pc = rng.randint(1, 6) / 2.0, rng.randint(1, 5) / 2.0
+            info = {"stages": cfg, "parent_term": parent_term, "v_guess": vg}
+
+            def declare(st, c):
+                x = st.state(); u = st.control()
+                st.set_der(x, -c["c"][0] * x + u)
+                e = c["c"][1] * x ** 2 + c["c"][2] * u ** 2 + c["c"][3] * x * st.t
+                for k in c["kinds"]:
+                    if k == 'mayer':
+                        st.add_objective(st.at_tf(c["c"][1] * x ** 2 + x))
+                    elif k == 'integral':
+                        st.add_objective(st.integral(e))
+                    elif k == 'sum':
+                        st.add_objective(st.sum(e, include_last=False))
+                    else:
+                        st.add_objective(st.integral(e, grid='control'))
+                st.subject_to(st.at_t0(x) == 1)
+                st.set_initial(x, c["guess"][0] + c["guess"][1] * st.t)
+                st.set_initial(u, c["guess"][2])
+                st.method({'ms': rockit.MultipleShooting(N=c["N"], M=c["M"], intg='rk'), 'ss': rockit.SingleShooting(N=c["N"], M=c["M"], intg='rk'),
+                           'dc': rockit.DirectCollocation(N=c["N"], M=c["M"], degree=2)}[c["method"]])
+
+            def f_start(only=None):
+                with B.quiet():
+                    ocp = rockit.Ocp()
+                    if only is None and parent_term:
+                        v = ocp.variable()
+                        ocp.add_objective(pc * v ** 2 + v)
+                        ocp.set_initial(v, vg)
+                    for i, c in enumerate(cfg):
+                        if only is None or only == i:
+                            declare(ocp.stage(t0=c["t0"], T=c["T"]), c)
+                    ocp.solver('ipopt', {'ipopt.print_level': 0, 'print_time': False, 'ipopt.max_iter': 0, 'ipopt.sb': 'yes'})
+                    ocp._transcribed
+                    opti = ocp.opti if hasattr(ocp, 'opti') else ocp._method.opti
+                    return float(opti.debug.value(opti.f, opti.initial()))
+            try:
+                total = f_start()
+                parts = [f_start(i) for i in range(nst)]
+            except Exception as ex:
+                self.slice_ok[name] = False
+                self.violation("a multi-stage problem with objective terms in several stages raised %s: %s" % (type(ex).__name__, str(ex)[:250].replace("\n", " ")), {"case": info},
+                               {"kind": "exception", "what": "stages-objective"})
+                return
+            want = sum(parts) + ((pc * vg ** 2 + vg) if parent_term else 0.0)
+            self.evaluations += 1
+            self.signatures.add("stages-objective-%d" % it)
+            self.count("stages-objective:%d-stages:%s" % (nst, "parent-term" if parent_term else "no-parent-term"))
+            if abs(total - want) > 1e-9 * max(1.0, abs(want)):
+                self.slice_ok[name] = False
+                self.violation("objective of the multi-stage NLP at its starting point is %r; the parent's term plus the objectives of the stages transcribed alone %s give %r"
+                               % (total, parts, want), {"case": info}, {"kind": "stages-objective", "stages": nst})
+                return
 
     def late_terms_slice(self):
         """objective terms added AFTER the problem was transcribed (a query, or a solve): the NLP solved next carries the sum of ALL
